@@ -12,7 +12,7 @@ import numpy as np
 import impl
 
 RULE = ("12 documented block classes x random constructor arguments and solve-time parameters in their physical range "
-        "(40 draws per block, thorough 1000), argument types drawn from {int, float, numpy.float64, numpy.int64} where an "
+        "(40 draws per block, thorough 1000; every second draw re-evaluates the same instance at 1-3 further points, one parameter changed or dropped at a time; user index functions depend on every parameter they are given), argument types drawn from {int, float, numpy.float64, numpy.int64} where an "
         "integer value is physical; per draw: closed form, unitarity or passivity, power reciprocity, documented zero "
         "entries; per block and argument type: put()/connect by pin name, solve inside a solver, str(), print_S(), "
         "show_free_pins(), inspect(); distinct = (block, arguments); non-trivial = every case")
@@ -49,10 +49,10 @@ def blocks():
     L = impl.lk()
 
     def neff(wl, R=None, w=None, pol=None, **kw):
-        return 2.0 + 0.1 * wl
+        return 2.0 + 0.1 * wl + 0.003 * float(R) + 0.2 * float(w) + 0.05 * float(pol)
 
-    def uidx(wl, **kw):
-        return 1.5 + 0.01 * wl
+    def uidx(wl, T=0.0, **kw):
+        return 1.5 + 0.01 * wl + 0.02 * float(T)
     B = {}
     # name: (make(args)->model, argspec {name:(lo,hi)}, paramspec, expected(args, params)->dict of checks)
     B["Waveguide"] = dict(
@@ -61,8 +61,9 @@ def blocks():
                                          (1, 0): np.exp(2j * np.pi * float(a["n"]) * float(a["L"]) / float(p.get("wl", a["wl"]))),
                                          (0, 0): 0, (1, 1): 0}, "unitary": True})
     B["UserWaveguide"] = dict(
-        make=lambda a: L.UserWaveguide(L=a["L"], func=uidx, param_dic={"wl": a["wl"]}), args={"L": (0, 50), "wl": (1, 2)}, params={"wl": (1, 2)},
-        expect=lambda a, p: {"entries": {(0, 1): np.exp(2j * np.pi * uidx(float(p.get("wl", a["wl"]))) * float(a["L"]) / float(p.get("wl", a["wl"]))),
+        make=lambda a: L.UserWaveguide(L=a["L"], func=uidx, param_dic={"wl": a["wl"], "T": a["T"]}), args={"L": (0, 50), "wl": (1, 2), "T": (-3, 3)},
+        params={"wl": (1, 2), "T": (-3, 3)},
+        expect=lambda a, p: {"entries": {(0, 1): np.exp(2j * np.pi * uidx(float(p.get("wl", a["wl"])), float(p.get("T", a["T"]))) * float(a["L"]) / float(p.get("wl", a["wl"]))),
                                          (0, 0): 0, (1, 1): 0}, "unitary": True})
     B["BeamSplitter"] = dict(
         make=lambda a: L.BeamSplitter(ratio=a["ratio"], phase=a["phase"]), args={"ratio": (0, 1), "phase": (0, 1)}, params={},
@@ -92,23 +93,40 @@ def blocks():
     B["PerfectMirror"] = dict(make=lambda a: L.PerfectMirror(phase=a["phase"]), args={"phase": (-1, 1)}, params={},
                               expect=lambda a, p: {"entries": {(0, 0): np.exp(1j * np.pi * float(a["phase"]))}, "unitary": True})
     B["TH_PhaseShifter"] = dict(
-        make=lambda a: L.TH_PhaseShifter(L=a["L"], Neff=neff, R=10.0, w=1.0, wl=a["wl"], pol=0), args={"L": (0, 50), "wl": (1, 2)}, params={"wl": (1, 2), "PS": (-2, 2)},
-        expect=lambda a, p: (lambda wl: {"entries": {(0, 1): np.exp(1j * np.pi * (2 * neff(wl) * float(a["L"]) / wl + float(p.get("PS", 0.0)))), (0, 0): 0, (1, 1): 0},
+        make=lambda a: L.TH_PhaseShifter(L=a["L"], Neff=neff, R=a["R"], w=a["w"], wl=a["wl"], pol=0),
+        args={"L": (0, 50), "wl": (1, 2), "R": (5, 50), "w": (0.5, 2)}, params={"wl": (1, 2), "PS": (-2, 2), "R": (5, 50), "w": (0.5, 2), "pol": (0, 1)},
+        expect=lambda a, p: (lambda wl: {"entries": {(0, 1): np.exp(1j * np.pi * (2 * neff(wl, p.get("R", a["R"]), p.get("w", a["w"]), p.get("pol", 0)) * float(a["L"]) / wl
+                                                                                  + float(p.get("PS", 0.0)))), (0, 0): 0, (1, 1): 0},
                                          "unitary": True})(float(p.get("wl", a["wl"]))))
     return B
 
 
-INT_OK = {"L", "n", "wl", "ratio", "phase", "d", "angle", "loss", "c", "ref", "PS"}
+INT_OK = {"L", "n", "wl", "ratio", "phase", "d", "angle", "loss", "c", "ref", "PS", "R", "w", "T", "pol"}
 
 
-def check_physics(ctx, name, spec, a, p, replay):
+def check_physics(ctx, name, spec, a, p, replay, history=()):
+    """one instance, evaluated at `p` and then at every point of `history` (the block's answer must not depend on
+    what the same instance was asked before)"""
     try:
         m = spec["make"](a)
+    except Exception as e:  # noqa
+        ctx.violation(f"C09:solve-raised:{name}", f"{name}{sorted((k, type(v).__name__) for k, v in a.items())} raised {type(e).__name__}: {str(e)[:60]}", replay)
+        return False
+    for k, q in enumerate([p] + list(history)):
+        if not check_point(ctx, name, spec, m, a, q, replay, k):
+            return False
+    return True
+
+
+def check_point(ctx, name, spec, m, a, p, replay, k):
+    try:
         S = np.array(m.solve(**p).S)[0]
     except Exception as e:  # noqa
         ctx.violation(f"C09:solve-raised:{name}", f"{name}{sorted((k, type(v).__name__) for k, v in a.items())} raised {type(e).__name__}: {str(e)[:60]}", replay)
         return False
     ex = spec["expect"](a, p)
+    if k:
+        name = name + ":re-evaluated"
     for (i, j), v in ex.get("entries", {}).items():
         if abs(S[i, j] - v) > 1e-9:
             ctx.violation(f"C09:closed-form:{name}", f"{name}: S[{i},{j}] = {S[i, j]:.6f}, documented value {complex(v):.6f} (args {a}, params {p})", replay)
@@ -195,6 +213,24 @@ def draw(rng, spec, all_int=False):
     return a, p, tys
 
 
+def draw_history(rng, spec, p):
+    """further parameter points for the same instance: mostly one parameter changed at a time, sometimes dropped"""
+    hist, cur = [], dict(p)
+    if not spec["params"]:
+        return hist
+    for _ in range(rng.randint(1, 3)):
+        q = dict(cur)
+        k = rng.choice(sorted(spec["params"]))
+        if k in q and rng.random() < 0.25:
+            del q[k]                                   # back to the block's own default
+        else:
+            lo, hi = spec["params"][k]
+            q[k], _ = typed(rng, pick(rng, lo, hi), True)
+        hist.append(q)
+        cur = q
+    return hist
+
+
 def fmt_monitor(ctx):
     """the finite table `C09.fmtOk` (Lean) against CPython's real format() on ints and floats"""
     fixed = [".3f", ".2f", ".4f", ".3e", ".3g"]
@@ -222,10 +258,13 @@ def run(ctx):
             if ctx.time_left() < 0:
                 return
             a, p, tys = draw(rng, spec, all_int=(i % 5 == 0))
+            hist = draw_history(rng, spec, p) if i % 2 else []
             rep = {"block": name, "args": {k: [float(v) if not isinstance(v, bool) else v, type(v).__name__] for k, v in a.items()},
-                   "params": {k: [float(v), type(v).__name__] for k, v in p.items()}}
-            ctx.case(rep, tags=[f"block:{name}"] + sorted({f"type:{t}" for t in tys.values()}), sample=rep if (i == 0 and name in ("BeamSplitter", "Mirror")) else None)
-            ok = check_physics(ctx, name, spec, a, p, rep)
+                   "params": {k: [float(v), type(v).__name__] for k, v in p.items()},
+                   "history": [{k: [float(v), type(v).__name__] for k, v in q.items()} for q in hist]}
+            ctx.case(rep, tags=[f"block:{name}", f"re-evaluations:{len(hist)}"] + sorted({f"type:{t}" for t in tys.values()}),
+                     sample=rep if (i == 0 and name in ("BeamSplitter", "Mirror")) else None)
+            ok = check_physics(ctx, name, spec, a, p, rep, hist)
             if i < (8 if ctx.tier == "quick" else 40):
                 check_interface(ctx, name, spec, a, dict(rep, kind="interface"))
 
@@ -242,7 +281,8 @@ def replay(ctx, data):
     if data.get("kind") == "interface":
         check_interface(ctx, data["block"], spec, a, data)
     else:
-        check_physics(ctx, data["block"], spec, a, p, data)
+        hist = [{k: _cast(v, t) for k, (v, t) in q.items()} for q in data.get("history", [])]
+        check_physics(ctx, data["block"], spec, a, p, data, hist)
     if ctx.violations:
         return False, ctx.violations[0]["what"]
     return True, "block matches its documented physics / interface"
